@@ -209,6 +209,19 @@ func selfTest() (failed []string, n int) {
 	}
 	expect("pooled memory / returned after Put", len(pooledMemoryLeaks(w, fnOf("PoolLeakBad"))) > 0, true)
 	expect("pooled memory / copied out", len(pooledMemoryLeaks(w, fnOf("PoolCopyOK"))) > 0, false)
+	hashOf := func(typ string) *ssa.Function {
+		for _, m := range sp.Members {
+			if t, ok := m.(*ssa.Type); ok && t.Name() == typ {
+				return prog.LookupMethod(t.Type(), sp.Pkg, "Sum64")
+			}
+		}
+		failed = append(failed, "canary type missing: "+typ)
+		return nil
+	}
+	if ph, wh := hashOf("prefixHasher"), hashOf("wholeHasher"); ph != nil && wh != nil {
+		expect("key hash / prefix only", partialKeyHash(w, ph) != "", true)
+		expect("key hash / whole key", partialKeyHash(w, wh) != "", false)
+	}
 	expect("error discipline / checked", dropped("RetOK"), false)
 	expect("error discipline / result discarded", dropped("RetDrop"), true)
 	expect("error discipline / only logged", dropped("RetLogOnly"), true)
